@@ -157,6 +157,10 @@ def valid_case(case) -> bool:
             ok = len(a) == 2 and a[0] in READ_ONLY and _is_value(a[1])
         elif k in ("fail_read", "fail_write", "fail_connect"):
             ok = len(a) == 1 and isinstance(a[0], bool)
+        elif k == "fail_write_nth":
+            # the n-th physical write call from now (single or non-empty batch) fails once: a fault in the middle of a
+            # call that makes several physical writes (the decorator's buffer flush)
+            ok = len(a) == 1 and isinstance(a[0], int) and not isinstance(a[0], bool) and 1 <= a[0] <= 6
         else:
             ok = False
         if not ok:
@@ -206,6 +210,7 @@ def execute(case) -> list[Step]:
             self.mem = {n: 0 for n in READ_ONLY}
             self.mem.update({n: RESET_VALUE for n in WRITABLE})
             self.fail_read = self.fail_write = self.fail_connect = False
+            self.fail_write_in = 0      # > 0: the n-th physical write call from now fails once
 
         def _io_failure(self, what, how="batch"):
             if cfg["volatile"]:      # the device lost power: output registers fall back to their power-on content
@@ -230,8 +235,14 @@ def execute(case) -> list[Step]:
                 ev.append(("r", r.name, self.mem[r.name]))
             return out
 
+        def _nth(self) -> bool:
+            if self.fail_write_in > 0:
+                self.fail_write_in -= 1
+                return self.fail_write_in == 0
+            return False
+
         def write(self, value, r):
-            if self.fail_write:
+            if self.fail_write or self._nth():
                 self._io_failure("wfail", "single")
             self.mem[r.name] = value
             ev.append(("w", r.name, value, "single"))
@@ -240,7 +251,7 @@ def execute(case) -> list[Step]:
             if len(registers) == 0:
                 ev.append(("w0",))
                 return
-            if self.fail_write:
+            if self.fail_write or self._nth():
                 self._io_failure("wfail")
             for v, r in zip(values, registers, strict=True):
                 self.mem[r.name] = v
@@ -347,6 +358,8 @@ def execute(case) -> list[Step]:
                 hw.fail_write = op[1]
             elif k == "fail_connect":
                 hw.fail_connect = op[1]
+            elif k == "fail_write_nth":
+                hw.fail_write_in = op[1]
             else:
                 raise AssertionError(op)
     finally:
